@@ -257,3 +257,42 @@ def memory_form_nd(t, rng, form=None):
     sl = tuple(slice(1, -1) for _ in t.shape)
     big[sl] = t
     return big[sl], form
+
+
+UNITARY_CLASSES = ["haar", "hermitian-complex", "pauli-y", "real-symmetric", "real-rotation", "diagonal-phase", "anti-hermitian",
+                   "permutation", "symmetric-complex"]
+
+
+def structured_2x2(rng, cls=None):
+    """A 2x2 unitary from a structural class that generic (Haar) matrices never hit: Hermitian with complex entries,
+    real symmetric / real non-symmetric, diagonal, anti-Hermitian, permutation, complex symmetric.  returns (U, class)."""
+    cls = cls or UNITARY_CLASSES[int(rng.integers(0, len(UNITARY_CLASSES)))]
+    sx, sy, sz = np.array([[0, 1], [1, 0]], complex), np.array([[0, -1j], [1j, 0]]), np.array([[1, 0], [0, -1]], complex)
+    if cls == "hermitian-complex":  # n.sigma with a y component: Hermitian, unitary, not real
+        v = rng.normal(size=3)
+        v[1] = np.sign(v[1] or 1.0) * max(abs(v[1]), 0.3)
+        v = v / np.linalg.norm(v)
+        u = v[0] * sx + v[1] * sy + v[2] * sz
+    elif cls == "pauli-y":
+        u = sy.copy()
+    elif cls == "real-symmetric":
+        t = rng.uniform(0.2, 1.3)
+        u = np.array([[np.cos(t), np.sin(t)], [np.sin(t), -np.cos(t)]], complex)
+    elif cls == "real-rotation":
+        t = rng.uniform(0.2, 1.3)
+        u = np.array([[np.cos(t), -np.sin(t)], [np.sin(t), np.cos(t)]], complex)
+    elif cls == "diagonal-phase":
+        u = np.diag(np.exp(1j * rng.uniform(0.3, 2.8, size=2)))
+    elif cls == "anti-hermitian":
+        v = rng.normal(size=3)
+        v = v / np.linalg.norm(v)
+        u = 1j * (v[0] * sx + v[1] * sy + v[2] * sz)
+    elif cls == "permutation":
+        u = sx.copy()
+    elif cls == "symmetric-complex":  # U = U^T, complex: V^T V for unitary V
+        v = haar_2x2(rng)
+        u = v.T @ v
+    else:
+        u, cls = haar_2x2(rng), "haar"
+    assert np.allclose(u @ u.conj().T, np.eye(2), atol=1e-12)
+    return u, cls
